@@ -278,6 +278,13 @@ func runAChol(cs *fw.Case, idx int) {
 	comparePaths(cs, "cholesky", variant, class, res, tol, wit, judge)
 	if res[0].fail == "" {
 		cs.Nontrivial("chol", variant, bits, fmtVec(in.v))
+		if n >= 3 {
+			var names []string
+			for _, p := range res {
+				names = append(names, p.name)
+			}
+			cs.Sample(map[string]any{"routine": "cholesky", "options": variant, "class": class, "A": fmtVec(in.v), "paths": names, "tolerance": num(tol), "cond2": num(kappa)})
+		}
 	}
 	cs.Cover(fmt.Sprintf("set:a-shape:cholesky:%s:%d:n=%d", variant, bits, n))
 }
